@@ -61,7 +61,13 @@ func randDim(rng *rand.Rand) int {
 	}
 }
 
-func cloneF32(v []float32) []float32 { return append([]float32(nil), v...) }
+// cloneF32 copies v; nil stays nil and an empty non-nil slice stays empty and non-nil (the two are different inputs).
+func cloneF32(v []float32) []float32 {
+	if v == nil {
+		return nil
+	}
+	return append(make([]float32, 0, len(v)), v...)
+}
 
 func sameBits(a, b []float32) bool {
 	if len(a) != len(b) {
